@@ -125,6 +125,11 @@ impl<K: Hash + Eq + VClone, Res: VClone, E: VClone> Registration<K, Res, E> {
     //@body Registration::drop@Drop
 }
 
+impl<E: VClone> CoalesceError<E> {
+    pub fn clone(&self) -> (r: Self)
+        ensures r == *self,   // #a_cloned_error_says_the_same_thing [C11]
+    //@body CoalesceError::clone@Clone
+}
 impl<Req, Res: VClone, E: VClone, K: Hash + Eq + VClone, F: Fn(&Req) -> K> CoalesceService<Req, Res, E, K, F> {
     pub fn clone(&self) -> (r: Self)
         ensures r.in_flight == self.in_flight && r.config == self.config,   // #clones_share_the_in_flight_map [C11]
